@@ -101,6 +101,16 @@ def h_getters():
     return fn
 
 
+def h_volume_general():
+    """volume of a cell given by three arbitrary (not LAMMPS-oriented) vectors; kept apart from the length/angle
+    obligations, whose square-root and arccos axioms make the joint query undecidable within the budget"""
+    def fn():
+        from atomman import Box
+        V = general_cell(); b = Box(vects=V)
+        return [('volume == |det| for arbitrary cell vectors', eq(b.volume, sx.det3(V)))]
+    return fn
+
+
 def _cosdeg(angle):
     """cos of an angle in degrees through the same shimmed numpy calls the code uses"""
     if sx.is_sym(angle):
@@ -132,6 +142,23 @@ def h_angles(general):
                 ob.append((f'0 <= {nm} <= 180', 0 <= ang <= 180))
         d = sx.det3(V)
         ob.append(('volume == |det|', eq(b.volume, d)))
+        return ob
+    return fn
+
+
+def h_angles_sliver():
+    """a very flat (but non-degenerate) cell: gamma between 0.03 and 0.25 degrees, i.e. cos(gamma) within 1e-5 of 1"""
+    def fn():
+        from atomman import Box
+        lx = var('lx', 1, 2); ly = var('ly', 0.001, 0.004); lz = var('lz', 1, 2); xy = var('xy', 1, 2)
+        V = expect_vects(lx, ly, lz, xy, 0.0, 0.0)
+        b = Box(lx=lx, ly=ly, lz=lz, xy=xy, xz=0.0, yz=0.0)
+        dot = lambda u, v: sum(x * y for x, y in zip(u, v))
+        L = [b.a, b.b, b.c]
+        g = b.gamma
+        ob = [('b^2 == |v1|^2', eq(L[1] * L[1], dot(V[1], V[1])))]
+        ob.append(('cos(gamma) |v0||v1| == v0.v1 for a cell angle below 0.25 degrees', eq(_cosdeg(g) * L[0] * L[1], dot(V[0], V[1]), scale=10.0)))
+        ob.append(('gamma is strictly between 0 and 180', band(g > 0, g < 180) if sx.is_sym(g) else 0 < g < 180))
         return ob
     return fn
 
@@ -268,7 +295,7 @@ def h_recip(general):
     return fn
 
 
-def h_inside(general, inclusive, n):
+def h_inside(general, inclusive, n, lead=None):
     def fn():
         from atomman import Box
         if general:
@@ -277,8 +304,15 @@ def h_inside(general, inclusive, n):
             lx, ly, lz, xy, xz, yz = lammps_cell(); O = origin(); V = expect_vects(lx, ly, lz, xy, xz, yz)
             b = Box(lx=lx, ly=ly, lz=lz, xy=xy, xz=xz, yz=yz, origin=O)
         P = points((n, 3))
-        res = b.inside(sa(P), inclusive=inclusive)
-        ob = [('one flag per point', np.shape(res) == (n,))]
+        if lead is None:
+            res = b.inside(sa(P), inclusive=inclusive)
+            ob = [('one flag per point', np.shape(res) == (n,))]
+        else:
+            # the same points arranged with several leading dimensions
+            res = b.inside(sa(P.reshape(tuple(lead) + (3,))), inclusive=inclusive)
+            ob = [(f'one flag per point, leading shape {tuple(lead)}', np.shape(res) == tuple(lead))]
+            if np.shape(res) != tuple(lead): return ob
+            res = np.asarray(res, dtype=object).reshape(n)
         d = sx.det3(V)
         for k in range(n):
             # Cramer: s_i = det(V with row i replaced by p-o) / det V
@@ -396,6 +430,8 @@ def cases(tier, seed=0):
             if tier == 'quick' and k2 == 'abc': continue
             cs.append(Case(f'pair_{k1}_{k2}', h_pair(k1, k2), bind=BIND, budget_s=170, timeout_ms=(6000 if tier == 'quick' else 60000) if k2 == 'abc' else 20000,
                            descr=f'cell built from {k1}, read back as {k2}, rebuilt: same vectors and origin'))
+    cs.append(Case('volume_general', h_volume_general(), bind=BIND, budget_s=120, timeout_ms=20000, descr='volume of a cell given by arbitrary vectors'))
+    cs.append(Case('angles_sliver', h_angles_sliver(), bind=BIND, budget_s=120, timeout_ms=20000, descr='angles of a very flat cell (cos within 1e-5 of 1)'))
     cs.append(Case('getters', h_getters(), bind=BIND, budget_s=100, descr='all scalar getters of a LAMMPS-form cell'))
     for g in (False, True):
         cs.append(Case(f'angles_{"general" if g else "lammps"}', h_angles(g), bind=BIND, budget_s=120 if g else 170, timeout_ms=4000 if g else 30000, max_paths=12, weight=6 if g else 1,
@@ -411,6 +447,9 @@ def cases(tier, seed=0):
         for inc in (True, False):
             cs.append(Case(f'inside_{"general" if g else "lammps"}_{"incl" if inc else "excl"}', h_inside(g, inc, 1 if g else 2), bind=BIND,
                            budget_s=170, timeout_ms=(8000 if tier == 'quick' else 60000) if g else 30000, descr='inside(p) <=> relative coordinates within [0,1] / (0,1)'))
+    for lead in ((2, 2), (2, 1, 3)):
+        cs.append(Case(f'inside_lammps_incl_lead{"x".join(map(str, lead))}', h_inside(False, True, int(np.prod(lead)), lead), bind=BIND, budget_s=170, timeout_ms=30000,
+                       descr=f'inside() for an array of points with leading shape {lead}'))
     cs.append(Case('abc', h_abc(), bind=BIND, budget_s=170, timeout_ms=30000, descr='Box(a,b,c,alpha,beta,gamma): Gram matrix and orientation'))
     cs.append(Case('abc_refusals', h_abc_refusals(), bind=BIND, budget_s=60, descr='angles outside (0,180) refused'))
     cs.append(Case('plane', h_plane(), bind=BIND, budget_s=120, timeout_ms=20000, descr='Plane.below/above vs signed distance'))
